@@ -880,7 +880,8 @@ Proof.
     + destruct (Nat.ltb_spec (length (nps cv f)) (length (nps cv t))) as [Hl|Hl]; [|discriminate].
       destruct (nth_error _ _); [|discriminate]. destruct (N.eqb _ _); [|discriminate].
       destruct (startswith _ _); [|discriminate]. injection H as <-.
-      intros En. apply (f_equal (@length N)) in En. rewrite skipn_length in En. simpl in En. lia.
+      intros En. apply (f_equal (@length N)) in En. rewrite skipn_length in En. simpl in En.
+      exact (nat_sub_0_lt _ _ Hl En).
 Qed.
 
 (* shape of a relative part *)
@@ -891,8 +892,8 @@ Lemma rstrip_suffix_fix c a b : rstrip c (a ++ b) = a ++ b -> b <> [] -> rstrip 
 Proof.
   intros H Hb. destruct (rstrip c b) eqn:E.
   - rewrite rstrip_app_drop in H by exact E. exfalso.
-    pose proof (rstrip_decomp c a) as [n Hn]. apply (f_equal (@length N)) in H.
-    apply (f_equal (@length N)) in Hn. rewrite !app_length in *. destruct b; [contradiction|]. simpl in H. lia.
+    pose proof (rstrip_length_le c a) as Hle. rewrite H, app_length in Hle.
+    destruct b; [contradiction|]. simpl in Hle. exact (nat_add_S_le _ _ Hle).
   - rewrite rstrip_app_keep in H by (rewrite E; discriminate). apply app_inv_head in H. congruence.
 Qed.
 
@@ -929,8 +930,8 @@ Proof.
       exists (z :: r''). split; [exact Hr'|]. split; [discriminate|]. split.
       * eapply noalt_incl; [|apply (nps_noalt cv t)]. fold tf. rewrite <- Hsplit at 2. apply incl_appr, incl_refl.
       * destruct (nps_shape cv t) as [Hs|Hs]; fold tf in Hs.
-        -- exfalso. assert (Hlen : length (skipn n tf) <= length tf) by (rewrite skipn_length; lia).
-           rewrite Hr', Hs in Hlen. simpl in Hlen. lia.
+        -- exfalso. assert (Hlen : length (skipn n tf) <= length tf) by (rewrite skipn_length; apply Nat.le_sub_l).
+           rewrite Hr', Hs in Hlen. simpl in Hlen. apply le_S_n in Hlen. inversion Hlen.
         -- rewrite <- Hsplit in Hs. apply rstrip_suffix_fix in Hs; [exact Hs|rewrite Hr'; discriminate].
 Qed.
 
@@ -949,12 +950,13 @@ Proof.
   rewrite is_subpath_eq; [|exact Hf|subst rel; destruct (nps cv f); discriminate]. cbv zeta.
   rewrite (nps_app_relpart cv _ _ (nps_noalt cv f) Hrel). rewrite lowc_app.
   destruct (str_eqb_spec (lowc cv (nps cv f)) (lowc cv (nps cv f) ++ lowc cv rel)) as [Eq|_].
-  { exfalso. apply (f_equal (@length N)) in Eq. rewrite app_length, !lowc_length in Eq. subst rel. simpl in Eq. lia. }
+  { exfalso. apply (f_equal (@length N)) in Eq. rewrite app_length, !lowc_length in Eq. subst rel. simpl in Eq.
+    exact (nat_add_S_neq _ _ Eq). }
   destruct (str_eqb_spec (lowc cv (nps cv f)) [cv_sep cv]) as [Eq|_].
   { exfalso. apply Hroot. apply (lowc_sep_iff cv Hok). exact Eq. }
   cbn [andb].
   destruct (Nat.ltb_spec (length (nps cv f)) (length (nps cv f ++ rel))) as [_|Hl];
-    [|rewrite app_length in Hl; subst rel; simpl in Hl; lia].
+    [|rewrite app_length in Hl; subst rel; simpl in Hl; exfalso; exact (nat_add_S_le _ _ Hl)].
   rewrite E at 1. rewrite nth_error_len_app, N.eqb_refl, startswith_app, skipn_len_app. reflexivity.
 Qed.
 
@@ -992,7 +994,8 @@ Proof.
   destruct Htf as [s' Htf].
   rewrite is_subpath_eq; [|exact Hf|destruct ff; discriminate]. cbv zeta. fold ff. rewrite Htf, lowc_app.
   destruct (str_eqb_spec (lowc cv ff) (lowc cv ff ++ lowc cv (c :: s'))) as [Eq|_].
-  { exfalso. apply (f_equal (@length N)) in Eq. rewrite app_length, !lowc_length in Eq. simpl in Eq. lia. }
+  { exfalso. apply (f_equal (@length N)) in Eq. rewrite app_length, !lowc_length in Eq. simpl in Eq.
+    exact (nat_add_S_neq _ _ Eq). }
   destruct (str_eqb_spec (lowc cv ff) [cv_sep cv]) as [Eq|_].
   { exfalso. apply Hroot. apply (lowc_sep_iff cv Hok). exact Eq. }
   cbn [andb]. rewrite nth_error_len_app.
@@ -1390,4 +1393,23 @@ Qed.
 Lemma match_cs cv a b d : cv_cs cv = true -> (paths_match cv a b d = true <-> pc cv a = pc cv b).
 Proof.
   intros Hc. rewrite match_iff_key by (intros H; congruence). unfold key. rewrite Hc. reflexivity.
+Qed.
+
+(* witnesses for refutations that need no arithmetic: a case-sensitive convention needs no fold
+   hypothesis at all, and a fold that only lowers 'A' satisfies fold_ok by case analysis *)
+Lemma conv_ok_cs cv : cv_cs cv = true -> conv_ok cv.
+Proof. intros Hc H. congruence. Qed.
+
+Definition fold_A (c : N) : N := if N.eqb c 65 then 97%N else c.
+Definition cv_A : conv :=
+  {| cv_sep := 47; cv_alt := None; cv_cs := false; cv_win := false; cv_fold := fold_A |}.
+
+Lemma fold_A_ok : fold_ok cv_A.
+Proof.
+  constructor; cbn [cv_fold cv_sep cv_alt cv_win cv_A].
+  - intros c. unfold fold_A. destruct (N.eqb_spec c 65) as [->|H]; [reflexivity|].
+    destruct (N.eqb_spec c 65); [contradiction|reflexivity].
+  - intros c. unfold fold_A. destruct (N.eqb_spec c 65) as [->|H]; split; intros E; try discriminate; exact E.
+  - intros a Ha. discriminate.
+  - intros Hw. discriminate.
 Qed.
